@@ -81,16 +81,18 @@ def eff_noise(dim, leak):
 
 def gen_emu(rng: random.Random, tier: str, family: str | None = None):
     fam = family or rng.choices(
-        ["random", "noisy", "rabi", "zero", "pilocal", "idle", "stoch", "leak", "evtimes"],
-        [28, 15, 10, 5, 8, 8, 10, 4, 12],
+        ["random", "noisy", "rabi", "zero", "pilocal", "idle", "stoch", "leak", "evtimes", "noisyidle"],
+        [28, 15, 10, 5, 8, 8, 10, 4, 12, 7],
     )[0]
     n = rng.choice([1, 1, 2, 2, 3, 3, 4]) if fam in ("random", "zero", "evtimes") else rng.choice([1, 2, 2, 3])
     case = dict(kind="emu", family=fam, n=n, spacing=rng.choice([6.0, 8.0, 10.0, 14.0]), seed=rng.randrange(1 << 30))
     xy = fam in ("random", "noisy", "zero", "evtimes") and rng.random() < 0.18
     chans = CH_SET_XY if xy else rng.choice(CH_SETS_ISING)
-    if fam in ("rabi", "idle"):
+    if fam in ("rabi", "idle", "noisyidle"):
         case["n"] = n = 1
         chans = [rng.choice([("ryd", "rydberg_global"), ("ram", "raman_global"), ("rl", "rydberg_local"), ("ml", "raman_local"), ("mw", "mw_global")])]
+    if fam == "noisyidle" and chans[0][1] == "mw_global":
+        chans = [("ryd", "rydberg_global")]  # amplitude noise is not emulated in XY mode
     if fam == "stoch" and rng.random() < 0.8:
         # one basis: the stochastic branch of V2 only works for two levels
         chans = [rng.choice([("ryd", "rydberg_global"), ("ram", "raman_global"), ("rl", "rydberg_local")])]
@@ -100,7 +102,21 @@ def gen_emu(rng: random.Random, tier: str, family: str | None = None):
     case["channels"] = [dict(name=nm, id=cid, target=rng.randrange(n)) for nm, cid in chans]
     names = [c[0] for c in chans]
     ops = []
-    if fam in ("rabi", "idle"):
+    if fam == "noisyidle":
+        # an idle period, then a short resonant pulse, emulated on the
+        # Monte-Carlo (NoisyResults) path with a negligible stochastic noise
+        dur = rng.choice([100, 200])
+        area = rng.choice([1.0, 1.0, 0.5, 0.75, 1.5]) * math.pi
+        ops.append(dict(op="delay", ch=names[0], dur=rng.choice([1000, 2000, 4000])))
+        ops.append(dict(op="pulse", ch=names[0], dur=dur, amp=area / (dur * 1e-3), det=0.0, phase=grid(rng, 0.0, TWO_PI, 16)))
+        if rng.random() < 0.4:
+            ops.append(dict(op="delay", ch=names[0], dur=rng.choice([16, 500])))
+        case["eval"] = rng.choice([dict(t="Minimal"), dict(t="Minimal"), dict(t="list", rel=[0.5, 1.0])])
+        if rng.random() < 0.75:
+            case["noise"] = dict(amp_sigma=2.0**-20, runs=rng.choice([2, 4]), samples_per_run=rng.choice([50, 100]))
+        else:
+            case["noise"] = dict(state_prep_error=2.0**-30, p_false_pos=0.0, p_false_neg=0.0, runs=rng.choice([2, 4]), samples_per_run=rng.choice([50, 100]))
+    elif fam in ("rabi", "idle"):
         dur = rng.choice([40, 52, 64, 100, 104, 160, 200, 300])
         area = grid(rng, 0.25, 3.0, 22) * math.pi
         amp = area / (dur * 1e-3)
@@ -181,8 +197,10 @@ def gen_emu(rng: random.Random, tier: str, family: str | None = None):
         case["noise"] = nz
         case["n"] = min(case["n"], 3)
     if fam == "leak":
-        two_bases = len({("r" if c[1].startswith("rydberg") else "d") for c in chans}) > 1
-        dim = 4 if two_bases else 3
+        # the dimension follows the bases that carry a non-zero drive, plus x
+        from harness.c11_impl import expected_eigenbasis as _eb
+
+        dim = len(_eb(dict(case, ops=ops, noise=None))) + 1
         case["n"] = min(case["n"], 2)
         case["noise"] = dict(with_leakage=True, eff_noise_rates=[0.5], eff_noise_opers=[eff_noise(dim, True)])
     if fam == "stoch":
@@ -220,6 +238,17 @@ def gen_emu(rng: random.Random, tier: str, family: str | None = None):
     for o in case["ops"]:
         if o["op"] == "target":
             o["q"] = o["q"] % case["n"]
+    # a user-supplied initial state (un-normalised on purpose), in every accepted form
+    if fam in ("random", "noisy", "evtimes") and rng.random() < 0.45:
+        tmp = dict(case, ops=ops)
+        from harness.c11_impl import expected_eigenbasis
+
+        size = len(expected_eigenbasis(tmp)) ** case["n"]
+        amps = [[grid(rng, -2.0, 2.0, 64) if rng.random() < 0.7 else 0.0,
+                 grid(rng, -2.0, 2.0, 64) if rng.random() < 0.5 else 0.0] for _ in range(size)]
+        if all(a == [0.0, 0.0] for a in amps):
+            amps[rng.randrange(size)] = [2.0, 0.0]
+        case["init"] = dict(amps=amps, form=rng.choice(["array", "qobj", "qobj", "qobj_unit"]))
     # V2 configuration mirrors the legacy evaluation times
     ev = case.get("eval", dict(t="Full"))
     if ev["t"] == "Full":
@@ -306,10 +335,46 @@ def gen_times(rng: random.Random, tier: str):
     return dict(kind="times", T=T, rate=rate, eval=ev, v2=v2)
 
 
+HIST_CONFIGS = {
+    "prep": lambda rng: dict(noise=["SPAM"], eta=rng.choice([0.25, 0.5, 1.0]), epsilon=rng.choice([0.0, 0.0625]),
+                             epsilon_prime=rng.choice([0.0, 0.125]), runs=rng.choice([2, 3, 5]), samples_per_run=rng.choice([1, 3])),
+    "det": lambda rng: dict(noise=["SPAM"], eta=0.0, epsilon=0.0625, epsilon_prime=0.125),
+    "none": lambda rng: dict(noise=[]),
+    "deph": lambda rng: dict(noise=["dephasing"], dephasing_rate=0.25),
+    "prep+deph": lambda rng: dict(noise=["SPAM", "dephasing"], eta=rng.choice([0.5, 1.0]), epsilon=0.0, epsilon_prime=0.0,
+                                  dephasing_rate=0.25, runs=rng.choice([2, 4]), samples_per_run=1),
+    "det+deph": lambda rng: dict(noise=["SPAM", "dephasing"], eta=0.0, epsilon=0.0625, epsilon_prime=0.0, dephasing_rate=0.25),
+}
+
+
+def gen_hist(rng: random.Random, tier: str):
+    """a history of configurations and runs on ONE QutipEmulator (interacting
+    atoms): constructor config, then set_config / add_config, runs in between"""
+    n = rng.choice([2, 2, 3])
+    dur = rng.choice([100, 200, 300])
+    case = dict(kind="hist", n=n, spacing=rng.choice([5.0, 6.0, 7.0]), seed=rng.randrange(1 << 30),
+                channels=[dict(name="ryd", id="rydberg_global", target=0)],
+                ops=[dict(op="pulse", ch="ryd", dur=dur, amp=grid(rng, 0.5, 2.0, 12) * TWO_PI,
+                          det=grid(rng, -1.0, 1.0, 8), phase=0.0)])
+    names = list(HIST_CONFIGS)
+    if rng.random() < 0.4:
+        kinds = [rng.choice(["prep", "prep+deph"]), rng.choice(["det", "det+deph", "none", "deph"])]
+    else:
+        kinds = [rng.choice(names) for _ in range(rng.randrange(2, 5))]
+    steps = []
+    for i, k in enumerate(kinds):
+        how = "init" if i == 0 else ("set" if rng.random() < 0.8 else "add")
+        steps.append(dict(how=how, name=k, cfg=HIST_CONFIGS[k](rng), run=(rng.random() < 0.8)))
+    case["steps"] = steps
+    return case
+
+
 def gen_case(rng: random.Random, tier: str):
     k = rng.random()
     if k < 0.45:
         return gen_emu(rng, tier)
-    if k < 0.75:
+    if k < 0.70:
         return gen_weights(rng, tier)
-    return gen_times(rng, tier)
+    if k < 0.92:
+        return gen_times(rng, tier)
+    return gen_hist(rng, tier)
